@@ -99,15 +99,25 @@ Print Assumptions c06_newline_none_changes_text.
 (** ** Loop iteration limit (raise_for_loop_limit, loop, carry_loop, copy) *)
 
 (** [loop_nest_bounded], full statement: REFUTED by the model of the code as it
-    is. A parent block rendered through [{{ block.super }}] inside a loop of the
-    overriding block is not multiplied with that loop: 25 iterations under
-    limit 10 (known finding block-super-loop-escape; witness replayed on the
-    implementation by the harness). *)
+    is. A parent block rendered through [{{ block.super }}] inside a tablerow /
+    include-for / render-for of the overriding block (a loop that is counted in
+    the carry of the block's context) is not multiplied with that loop: 25
+    iterations under limit 10 (known finding block-super-loop-escape; witness
+    replayed on the implementation by the harness). *)
 Theorem c06_loop_nest_bounded_refuted : exists c L ops s,
-  active (loop_limit c) = Some L /\ Forall (fun o => o <> EnterCopy false) ops /\
+  active (loop_limit c) = Some L /\ Forall (fun o => o <> EnterCopy false false) ops /\
   render c init ops = Ok s /\ L < nest_product ops.
 Proof. exact loop_nest_bounded_refuted. Qed.
 Print Assumptions c06_loop_nest_bounded_refuted.
+
+(** A plain [for] around [{{ block.super }}] is counted: the block-scoped copy
+    continues the loop list of the outer context (since /repo e5160a7). *)
+Theorem c06_super_inside_for_is_counted :
+  render {| depth_limit := 30; loop_limit := Some 10; ns_limit := None |} init
+    [Extend; EnterCopy true true; EnterFor 5; EnterSuper 0; EnterFor 5]
+  = LErr LoopIterationLimitError None.
+Proof. exact super_inside_for_is_counted. Qed.
+Print Assumptions c06_super_inside_for_is_counted.
 
 (** [loop_nest_bounded_partial], under the exact guard that excludes it
     ([counted]: no EnterSuper; every copy carries the loop count, as all call
@@ -142,7 +152,7 @@ Theorem c06_loop_within_limit_passes : forall c L ops s n,
   active (loop_limit c) = Some L -> Forall counted ops ->
   render c init ops = Ok s ->
   n * nest_product ops <= L ->
-  raise_for_loop_limit c (cur s) n = Ok tt.
+  raise_for_loop_limit c (cur s) (cur_loops s) n = Ok tt.
 Proof. exact loop_within_limit_passes. Qed.
 Print Assumptions c06_loop_within_limit_passes.
 
@@ -171,8 +181,8 @@ Proof. exact depth_bounded. Qed.
 Print Assumptions c06_depth_bounded.
 
 (** Copy depth strictly increases along render / call / block edges. *)
-Theorem c06_copy_increases_depth : forall c s cl s',
-  step c s (EnterCopy cl) = (Ok tt, s') ->
+Theorem c06_copy_increases_depth : forall c s cl bs s',
+  step c s (EnterCopy cl bs) = (Ok tt, s') ->
   depth (cur s') = depth (cur s) + 1 /\ depth (cur s) <= depth_limit c
   /\ parents s' = cur s :: parents s.
 Proof. exact copy_increases_depth. Qed.
@@ -183,7 +193,7 @@ Theorem c06_depth_limit_raises : forall c s,
   (depth_limit c < scope (cur s) ->
      fst (step c s Extend) = LErr ContextDepthError None)
   /\ (depth_limit c < depth (cur s) ->
-     forall cl, fst (step c s (EnterCopy cl)) = LErr ContextDepthError None).
+     forall cl bs, fst (step c s (EnterCopy cl bs)) = LErr ContextDepthError None).
 Proof. exact depth_limit_raises. Qed.
 Print Assumptions c06_depth_limit_raises.
 
